@@ -24,7 +24,7 @@ def units(lines):
 
 DEFS = {"ssink", "ssinkc", "csink", "const", "never", "map", "mapto", "filter", "filteropt", "merge", "orelse", "snapshot", "snapshot1", "snapshotn", "gate",
         "hold", "holdlazy", "once", "updates", "value", "mapc", "lift2", "liftn", "accum", "collect", "defer", "split", "switchs", "switchc", "router", "route",
-        "mklazy", "sloop", "cloop", "sloopclose", "cloopclose", "lazy"}
+        "mklazy", "sloop", "cloop", "sloopclose", "cloopclose", "lazy", "accumlazy", "collectlazy"}
 
 
 def unit_kind(u):
